@@ -21,14 +21,17 @@ def needs_text(readme):
 
 
 summary = []
-for prop in sorted(os.listdir(ST)):
-    for k in sorted(os.listdir(os.path.join(ST, prop))):
+for prop0 in sorted(os.listdir(ST)):
+    for k in sorted(os.listdir(os.path.join(ST, prop0))):
+        prop = prop0
         d = os.path.join(ST, prop, k)
         if not os.path.isdir(d) or not os.path.exists(os.path.join(d, "patch.diff")):
             continue
         conf = json.load(open(os.path.join(d, "confirm.json"))) if os.path.exists(os.path.join(d, "confirm.json")) else None
         res = json.load(open(os.path.join(d, "result.json"))) if os.path.exists(os.path.join(d, "result.json")) else None
         sid = "%s-%s" % (prop, k)
+        name = prop
+        prop = prop[:3]
         if not conf or not conf.get("confirmed"):
             summary.append((sid, "NOT KEPT (not confirmed)", ""))
             continue
